@@ -291,6 +291,11 @@ SPELL = {
     "strings": lambda g: [["10", "2", "1", "03"][v] for v in g],
     "floats": lambda g: [[0.5, 2.25, -1.0, 7.0][v] for v in g],
     "permuted": lambda g: [[2, 0, 3, 1][v] for v in g],
+    # numbers whose numeric order is not the order of their spellings ('10' < '2', '100' < '33')
+    "two-digit ints": lambda g: [[2, 10, 33, 100][v] for v in g],
+    "two-digit ints, reversed": lambda g: [[100, 33, 10, 2][v] for v in g],
+    "floats 2.0 / 10.0": lambda g: [[2.0, 10.0, 33.5, 100.0][v] for v in g],
+    "months 9..12": lambda g: [[9, 10, 11, 12][v] for v in g],
 }
 
 
@@ -364,7 +369,7 @@ def _grouped_task(task, p):
                 p.violation(sub, dict(key, what="attrs"), case, f"grouped spi({kw}): attrs {a.get('spi_calibration_begin')} / {a.get('spi_calibration_end')}")
             # spellings: only the induced partition matters (first few valid windows of each labeling)
             nvalid_seen += 1
-            if nvalid_seen <= 4:
+            if nvalid_seen <= 12:
                 for name, f in SPELL.items():
                     if name == "ints":
                         continue
